@@ -12,7 +12,7 @@ LEVEL_TEXT = (
     'created inside the per-thread iteration; recursion continues on the branch copies). The iff - '
     'that the search accepts exactly the linearizable histories - is NOT decided.')
 
-FLOORS = {'C08-R1': 9, 'C08-R3': 10, 'C08-R4': 2}
+FLOORS = {'C08-R1': 9, 'C08-R3': 10, 'C08-R4': 2, 'C08-R5': 1, 'C08-R6': 1}
 
 
 def run(ctx):
@@ -29,3 +29,9 @@ def run(ctx):
     with ctx.rule('C08-R4', T.LIN):
         T.search_is_pure_or_memo_complete(ctx, F, T.LIN, 'C08-R4')
         T.candidates_are_independent(ctx, F, T.LIN, 'C08-R4')
+    ctx.doc('C08-R6', 'on_invret is on_invoke followed by on_return (own override or trait default)')
+    with ctx.rule('C08-R6', T.LIN):
+        T.invret_is_invoke_then_return(ctx, F, T.LIN, 'C08-R6')
+    ctx.doc('C08-R5', 'on_invoke snapshots the last completed operation of every other thread, whatever is in flight')
+    with ctx.rule('C08-R5', T.LIN):
+        T.snapshot_covers_every_peer(ctx, F, T.LIN, 'C08-R5')
